@@ -913,3 +913,79 @@ def flat_api(rng, name):
     api.options = ["transport=grpc", "autogen-snippets=false"]
     api.info.update(pkg=pkg, version=ver, ns=["vp"], name=name, host=f"{name}.googleapis.com")
     return api
+
+
+ROUTING_FORMS = [
+    ("plain", [("name", "")]),
+    ("star", [("app_profile_id", "{routing_id=*}")]),
+    ("dstar", [("name", "{name=**}")]),
+    ("prefix_capture_suffix", [("table_name", "{table_location=projects/*/instances/*}/**")]),
+    ("mid_capture", [("table_name", "projects/*/{instance_id=instances/*}/**")]),
+    ("shared_key", [("table_name", "{routing_id=projects/*}/**"), ("table_name", "{routing_id=projects/*/instances/*}/**"),
+                    ("app_profile_id", "{routing_id=**}")]),
+    ("shared_key_rev", [("app_profile_id", "{routing_id=**}"), ("table_name", "{routing_id=projects/*}/**")]),
+    ("nested_tmpl", [("sub.id", "{sub_id=things/*}")]),
+    ("nested_plain", [("sub.region", "")]),
+    ("multi_key", [("name", "{project=projects/*}/**"), ("app_profile_id", "{profile=*}"), ("sub.region", "")]),
+    ("exact_no_tail", [("table_name", "{project=projects/*}")]),
+    ("exact_two_seg", [("table_name", "{inst=projects/*/instances/*}")]),
+    ("literal_suffix", [("table_name", "{tbl=projects/*/tables/*}/rows")]),
+    ("whole_dstar_tail", [("name", "{database=projects/*/databases/*}/documents/*/**")]),
+]
+IMPLICIT_FORMS = [
+    ("one", {"get": "/v1/{name=things/*}"}, None),
+    ("two", {"get": "/v1/{parent=projects/*}/things/{thing_id}"}, None),
+    ("dotted", {"patch": "/v1/{sub.id=things/*}"}, "sub"),
+    ("dotted_two", {"post": "/v1/{sub.id=things/*}/regions/{sub.region}"}, "*"),
+    ("reserved", {"get": "/v1/{type=kinds/*}/x/{filter}"}, None),
+    ("int_var", {"get": "/v1/{parent=projects/*}/shards/{shard}"}, None),
+    ("dstar", {"delete": "/v1/{name=things/**}"}, None),
+    ("verb_order", {"post": "/v1/{table_name=projects/*/tables/*}:mutate"}, "*"),
+]
+
+
+def routing_api(rng, name):
+    """google.api.routing / implicit header shapes (C06)."""
+    api = Api(name)
+    tags = api.tags
+    ver = "v1"
+    pkg = f"vp.{name}.{ver}"
+    P = "." + pkg
+    f = File(f"vp/{name}/{ver}/{name}.proto", pkg, deps=list(STD_DEPS))
+    api.add(f)
+    sub = f.message("Sub")
+    sub.field("id", "string")
+    sub.field("region", "string")
+    rq = f.message("Req")
+    rq.field("anchor", "string")
+    rq.field("name", "string")
+    rq.field("table_name", "string")
+    rq.field("app_profile_id", "string")
+    rq.field("sub", P + ".Sub")
+    rq.field("parent", "string")
+    rq.field("thing_id", "string")
+    rq.field("type", "string")
+    rq.field("filter", "string")
+    rq.field("shard", "int64")
+    rq.field("note", "string")
+    rp = f.message("Reply")
+    rp.field("ok", "bool")
+    s = f.service("Router", host=f"{name}.googleapis.com")
+    forms = list(ROUTING_FORMS)
+    rng.shuffle(forms)
+    for i, (label, params) in enumerate(forms[:rng.randint(8, len(forms))]):
+        s.rpc(f"Explicit{i}", P + ".Req", P + ".Reply", http={"post": "/v1/{anchor=anchors/*}:go" + str(i)}, body="*", routing=params)
+        tags.add("routing:" + label)
+        api.info.setdefault("explicit", {})[f"Explicit{i}"] = label
+    imps = list(IMPLICIT_FORMS)
+    rng.shuffle(imps)
+    for i, (label, http, body) in enumerate(imps[:rng.randint(5, len(imps))]):
+        s.rpc(f"Implicit{i}", P + ".Req", P + ".Reply", http=http, body=body)
+        tags.add("implicit:" + label)
+        api.info.setdefault("implicit", {})[f"Implicit{i}"] = label
+    # explicit routing wins over the HTTP rule
+    s.rpc("Both", P + ".Req", P + ".Reply", http={"get": "/v1/{name=things/*}"}, routing=[("app_profile_id", "")])
+    s.rpc("NoHeader", P + ".Req", P + ".Reply")
+    api.options = ["transport=grpc+rest", "autogen-snippets=false"]
+    api.info.update(pkg=pkg, version=ver, ns=["vp"], name=name, host=f"{name}.googleapis.com")
+    return api
